@@ -170,7 +170,7 @@ def check_C05(ctx):
                           % (a["trace"], a["outcome"], exp_trace, end), case=c)
     ctx.sample({"depth": 2, "hooks": "B0=ret B1=panic(5) A=ret F1=exit(3) F0=ret",
                 "expected": "B:app B:app/c1 F:app -> panic user:5"})
-    return ("all 4^(2d+1) assignments of {absent, returns, panics, exits} to the callbacks of a path of depth d "
+    return ("all 5^(2d+1) assignments of {absent, returns, panics, exits, fails with a run-time error} to the callbacks of a path of depth d "
             "(Action present) for d in %s, plus random assignments for depth <= 6 under all three policies; "
             "distinct = distinct (tree, argv); every case is non-trivial (at least the Action runs or is skipped)" % depths)
 
@@ -304,7 +304,7 @@ def written_values(ctx, cases, res):
 def judge_sentences(ctx, cases, res, prop):
     """direct oracle for C01/C02: the reference semantics against the implementation"""
     qs = sentence_cases(cases)
-    if prop == "C02":
+    if prop in ("C02", "C09"):
         for q, c in zip(qs, cases):
             a, _ = res[c["id"]]
             if accepted(a):
@@ -329,10 +329,20 @@ def judge_sentences(ctx, cases, res, prop):
         stats["claimed"] += 1
         acc = accepted(a)
         stats["accept" if acc else "reject"] += 1
-        if prop == "C01":
+        if prop == "C09":
+            # a -- written in the spec is read as the reference semantics reads it: options end at that position
             if acc != (lo == "yes"):
-                if (not acc) and ideal == "yes" and lo == "no":
-                    pass
+                ctx.violation("spec-dd", "spec %r, command line %r: the implementation %s it, but with the spec's -- read as "
+                              "a -- at that position of the command line it is %sa sentence of the spec"
+                              % (c["root"]["spec"], c["argv"], "accepts" if acc else "rejects", "" if lo == "yes" else "not "),
+                              case=c, impl=a["outcome"], reference=lo)
+            if acc and dv:
+                stats["derivations"] += 1
+            if acc and lo == "yes" and dv == "no":
+                ctx.violation("spec-dd", "spec %r, command line %r: the bound values %r are not a reading with options ended "
+                              "where the spec says --" % (c["root"]["spec"], c["argv"], a["values"]), case=c, impl=a["values"])
+        elif prop == "C01":
+            if acc != (lo == "yes"):
                 ctx.violation("sentence", "spec %r, command line %r: the implementation %s it, but it is %sa sentence of the spec"
                               % (c["root"]["spec"], c["argv"], "accepts" if acc else "rejects", "" if lo == "yes" else "not "),
                               case=c, impl=a["outcome"], reference=lo)
@@ -558,6 +568,7 @@ def check_C09(ctx):
                 tails.append({"op": "run", "env": {}, "version": None, "root": root, "argv": argv, "_tag": tag,
                               "_head": head, "_tail": tail})
     res2 = correspond(ctx, tails, ["outcome", "trace", "values"], "tails after --")
+    st_dd = judge_sentences(ctx, tails, res2, "C09")
     for c in tails:
         a, _ = res2[c["id"]]
         if c["_tag"] == "cli-dd" and accepted(a):
@@ -597,6 +608,7 @@ def check_C09(ctx):
                 cov["under_theorem"] += 1
             else:
                 cov["other"] += 1
+    ctx.stream("tails after --", 0, **st_dd)
     ctx.stream("insertion of -- in the trailing block", 0, pairs=npairs, base_lines=len(groups),
                theorem_C09_inserted_dd_same_parse=cov)
     ctx.sample({"spec": "X", "argv": ["x"], "variants": [["--", "x"], ["x", "--"]]})
